@@ -640,6 +640,89 @@ SELFTEST = [
 """, """            .any(|hv| hv.split(',').any(|t| t.trim().eq_ignore_ascii_case("upgrade")))
 """)],
      "why": "property-preserving: tokens are split on ',' and trimmed of all whitespace instead of splitting on SP/HTAB; same reject/accept structure"},
+    {"name": "connection-named-flag-matches-separator", "kind": "benign",
+     "edits": [(WS, "        if !request\n            .headers()\n            .get_all(header::CONNECTION)", "        let connection_ok = request\n            .headers()\n            .get_all(header::CONNECTION)"),
+               (WS, """                hv.split(|c| c == ',' || c == ' ' || c == '\\t')
+                    .any(|vs| vs.eq_ignore_ascii_case("upgrade"))
+            })
+        {""", """                hv.split(|c: char| matches!(c, ',' | ' ' | '\\t'))
+                    .any(|vs| vs.eq_ignore_ascii_case("upgrade"))
+            });
+        if !connection_ok {""")],
+     "why": "behaviour-preserving: the test result is bound to a named flag before `if !flag`; the separator predicate is written with matches! (decided by concrete evaluation of the closure)"},
+    {"name": "upgrade-for-loop-early-exit", "kind": "benign",
+     "edits": [(WS, """        if !request
+            .headers()
+            .get_all(header::UPGRADE)
+            .iter()
+            .filter_map(|v| v.to_str().ok())
+            .any(|v| {
+                v.split(|c| c == ',' || c == ' ' || c == '\\t')
+                    .any(|v| v.eq_ignore_ascii_case("websocket"))
+            })
+        {""", """        let mut protocol_ok = false;
+        for line in request.headers().get_all(header::UPGRADE).iter() {
+            let Ok(text) = line.to_str() else { continue };
+            if text
+                .split(|c| c == ',' || c == ' ' || c == '\\t')
+                .any(|v| v.eq_ignore_ascii_case("websocket"))
+            {
+                protocol_ok = true;
+                break;
+            }
+        }
+        if !protocol_ok {""")],
+     "why": "behaviour-preserving: any(..) over the field lines written as a for loop with let-else/continue that sets a flag and leaves at the first match"},
+    {"name": "version-guarded-match-key-match", "kind": "benign",
+     "edits": [(WS, _VER_HEAD + "\n            .map(|v| v.as_bytes())\n" + _VER_TAIL,
+                '        if !matches!(request.headers().get(header::SEC_WEBSOCKET_VERSION), Some(v) if v.as_bytes() == b"13")\n        {'),
+               (WS, """            .map(|hv| hv.as_bytes())
+            .map(|key| derive_accept_key(key))
+            .ok_or_else(|| {
+""" + _KEY_ERR + """
+            })?;""", """;
+        let accept_key = match accept_key {
+            Some(client_key) => derive_accept_key(client_key.as_bytes()),
+            None => {
+                return Err(""" + _KEY_ERR.strip() + """);
+            }
+        };""")],
+     "why": "behaviour-preserving: version test as a guarded pattern, key chain `.map().map().ok_or_else()?` as an explicit match with `return Err(..)`"},
+    {"name": "sha1-chain-update", "kind": "benign",
+     "edits": [(WS, "    let mut sha1 = Sha1::default();\n" + _UPDATES + "\n    base64::engine::general_purpose::STANDARD.encode(&sha1.finalize())",
+                "    let digest = Sha1::new().chain_update(request_key).chain_update(WS_GUID).finalize();\n    let accept = base64::engine::general_purpose::STANDARD.encode(digest.as_slice());\n    debug_assert_eq!(accept.len(), 28);\n    accept")],
+     "why": "behaviour-preserving: chain_update threads the hasher state by value instead of two update calls on one `mut` state; digest and result bound to locals"},
+    {"name": "sha1-chain-update-guid-first", "kind": "mutant",
+     "edits": [(WS, "    let mut sha1 = Sha1::default();\n" + _UPDATES + "\n    base64::engine::general_purpose::STANDARD.encode(&sha1.finalize())",
+                "    let digest = Sha1::new().chain_update(WS_GUID).chain_update(request_key).finalize();\n    base64::engine::general_purpose::STANDARD.encode(digest.as_slice())")],
+     "expect": ["C20.R2"], "why": "digest of GUID ++ key, written with chain_update"},
+    {"name": "version-guard-inverted", "kind": "mutant",
+     "edits": [(WS, _VER_HEAD + "\n            .map(|v| v.as_bytes())\n" + _VER_TAIL,
+                '        if !matches!(request.headers().get(header::SEC_WEBSOCKET_VERSION), Some(v) if v.as_bytes() != b"13")\n        {')],
+     "expect": ["C20.R1"], "why": "version 13 is refused and every other present version accepted (guarded-pattern spelling)"},
+    {"name": "upgrade-loop-flag-never-cleared", "kind": "mutant",
+     "edits": [(WS, """        if !request
+            .headers()
+            .get_all(header::UPGRADE)
+            .iter()
+            .filter_map(|v| v.to_str().ok())
+            .any(|v| {
+                v.split(|c| c == ',' || c == ' ' || c == '\\t')
+                    .any(|v| v.eq_ignore_ascii_case("websocket"))
+            })
+        {""", """        let mut protocol_ok = true;
+        for line in request.headers().get_all(header::UPGRADE).iter() {
+            let Ok(text) = line.to_str() else { continue };
+            if text
+                .split(|c| c == ',' || c == ' ' || c == '\\t')
+                .any(|v| v.eq_ignore_ascii_case("websocket"))
+            {
+                protocol_ok = true;
+                break;
+            }
+        }
+        if !protocol_ok {""")],
+     "expect": ["C20.R1"], "why": "the loop's flag starts out true, so a request without `Upgrade: websocket` is upgraded"},
     {"name": "log-line-and-match", "kind": "benign",
      "edits": [(WS, "        let route = request.uri().to_string();", '        debug!(rqctx.log, "websocket handshake accepted");\n        let route = request.uri().to_string();'),
                (WS, "            })\n        {\n            return Err(HttpError::for_bad_request(\n                None,\n                \"expected connection upgrade\".to_string(),\n            ));\n        }",
